@@ -105,6 +105,8 @@ func pricingText(name string) string {
 		return fmt.Sprintf(`{"price":"4stake","promotions_by_time":[{"start_time":"%s","end_time":"%s","discount":"0.9"},{"start_time":"%s","end_time":"%s","discount":"0.5"}]}`, ts(5), ts(7), ts(1), ts(3))
 	case "p20t": // base 20, half price during the first three seconds
 		return fmt.Sprintf(`{"price":"20stake","promotions_by_time":[{"start_time":"%s","end_time":"%s","discount":"0.5"}]}`, ts(0), ts(3))
+	case "p3t": // 3stake at half price during the first six seconds: 1.5 -> fee 1
+		return fmt.Sprintf(`{"price":"3stake","promotions_by_time":[{"start_time":"%s","end_time":"%s","discount":"0.5"}]}`, ts(0), ts(6))
 	case "p5":
 		return `{"price":"5stake"}`
 	case "p20":
